@@ -481,6 +481,8 @@ def distributed_slice(chk, quick):
             continue
         for P in ((2, 3) if quick else (2, 3, 5, 7)):
             rc, ranks, err = C06.launch(h, P, "ham\n", threads=1, timeout=60, model=model)
+            if rc != 0:      # a loaded machine: once more with a generous limit before the launch is given up
+                rc, ranks, err = C06.launch(h, P, "ham\n", threads=1, timeout=300, model=model)
             chk.case("mpi %s %d" % (name, P), "distributed diagonalisation P=%d %s" % (P, name), True, None)
             if rc != 0:
                 chk.notes.append("distributed slice: launch P=%d on %s ended with rc=%s (termination is decided by C06)" % (P, name, rc))
